@@ -16,10 +16,21 @@
  *   resident   (C05) a key / node that is continuously present for the whole duration of a lookup, a
  *                    lookup+next_duplicate walk or a first/next traversal is returned by it
  *   dupkey     (C06) no walk returns two nodes of a unique-only key; add_unique/add_replace results
- *   lin        (C05) Wing–Gong linearizability search against a reference multimap (histories <= 14 ops)
+ *   replabsent (C06) a lookup misses a continuously present key while a replace / add_replace of that key is in progress
+ *   replowner  (C06) a replaced node is handed to two callers (reported in addition to owner)
+ *   lin        (C05) Wing–Gong linearizability search against a reference multimap (--small; histories <= 24 ops,
+ *                    closed when the workers are joined; budgeted search: inconclusive is reported, never a failure)
+ *   gp         (C07) the real synchronize_rcu() returned while a section begun before the call is still open
  *   quarantine (C07) removed nodes and freed bucket tables are poisoned and kept: a later access faults
+ *   abort      (all) an assertion of the library itself fails (urcu_posix_assert is compiled in)
  *   progress   (C17) with all other threads frozen a lookup/traversal executes no spin hint and every
  *                    update finishes within a step bound (runtime: DEADLOCK exit 4, BUDGET exit 5)
+ *
+ * Options (besides the runtime's --seed / --strategy rand|pct|sweep / --pswitch / --preempt-at N --preempt-tid T / --trace):
+ *   --threads N --ops N --keys N (<= 8; the upper half is unique-only) --hashmode 0|1|2|3 --init N --minalloc N --max N
+ *   --flags F (1 auto-resize, 2 accounting) --mm 0|1|2 (order|chunk|mmap) --resizes N --rtargets a,b,c --prefill N
+ *   --pre SCRIPT --script "1:…;2:…" (directed programs, see run_script) --small (history for lin) --solo (C17 freeze runs)
+ *   --big (whole tables named, for the partitioned resize on >= 16384 buckets) --marks (sweep windows "#@ in/out")
  */
 #ifdef TU_FLAVOR
 #include "vrt_shim.h"
@@ -47,6 +58,7 @@ struct knode {
 	long in_since;		/* harness time it became sure-in */
 	int winners, del_calls;
 	int owner_tid;
+	const char *owner_how;
 	int tainted;		/* targeted by a removal call while its own add / replace was still in flight */
 };
 
@@ -257,10 +269,20 @@ static void on_segv(int sig)
 	_exit(3);
 }
 
+static void on_abort(int sig)
+{
+	static const char m[] = "ORACLE abort: the library aborted (urcu_posix_assert / abort() in the real code, message above)\n";
+	(void)sig;
+	(void)!write(2, m, sizeof(m) - 1);
+	_exit(3);
+}
+
 /* ---- monitors (harness code between two shimmed primitives is atomic: one thread runs at a time) ---- */
 static int sure[MAXKEY];		/* nodes of the key that are certainly in the table */
 static long lastzero[MAXKEY];		/* last time the key was possibly absent */
 static int ar_inflight[MAXKEY];		/* add_replace calls in progress on the key (their target is unknown) */
+static int repl_inflight[MAXKEY];	/* replace / add_replace calls in progress on the key */
+static long repl_last[MAXKEY];		/* … and when the last one returned */
 static long ar_last[MAXKEY];
 static long touched_at[MAXNODE];	/* first removal call that targeted the node */
 static int taint[MAXKEY];		/* in-flight adds / replaces on the key whose NEW node is already targeted by a removal:
@@ -299,7 +321,10 @@ static void node_won(struct knode *n, const char *how)
 	if (n->state == 2) { n->state = 3; if (--sure[n->key] == 0) key_unsure(n->key); }
 	else if (n->state == 1) { key_unsure(n->key); node_taint(n); }
 	if (++n->winners > 1)
-		vrt_fail("owner", "node%d obtained by two callers (second: T%d via %s, first: T%d)", n->id, vrt_self(), how, n->owner_tid);
+		vrt_fail("owner", "node%d obtained by two callers (second: T%d via %s, first: T%d via %s)", n->id, vrt_self(), how, n->owner_tid, n->owner_how);
+	if (n->winners > 1 && (how[0] != 'd' || n->owner_how[0] != 'd'))
+		vrt_fail("replowner", "replaced node%d handed to two callers (%s by T%d, %s by T%d)", n->id, n->owner_how, n->owner_tid, how, vrt_self());
+	n->owner_how = how;
 	n->owner_tid = vrt_self();
 	n->state = 4;
 }
@@ -315,11 +340,11 @@ enum { H_ADD, H_ADDU, H_ADDR, H_REPL, H_DEL, H_LOOKUP };
 struct hop { int type, tid, node, arg2, ret; unsigned long key; long call, retn; };
 #define MAXHIST 64
 static struct hop hist[MAXHIST];
-static int nhist;
+static int nhist, hist_closed;	/* the history ends when the workers are joined (the final state is checked by final_checks) */
 static int h_begin(int type, unsigned long key, int node, int arg2)
 {
 	int i = nhist;
-	if (!small_hist || nhist >= MAXHIST) return -1;
+	if (!small_hist || hist_closed || nhist >= MAXHIST) return -1;
 	nhist++;
 	hist[i].type = type; hist[i].tid = vrt_self(); hist[i].key = key; hist[i].node = node; hist[i].arg2 = arg2;
 	hist[i].call = htime++; hist[i].retn = 0;
@@ -346,9 +371,15 @@ static void own(struct knode *n) { if (nmine < 256) mine[nmine++] = n; }
 /* ---- C17: solo accounting around every library call ------------------------------------------------------ */
 static __thread int soloing;
 static __thread unsigned long solo_s0, solo_r0, solo_steps, solo_relax;
-static void lib_enter(void) { if (soloing) { solo_s0 = vrt_mysteps(); solo_r0 = vrt_myrelax(); } }
+static int sweep_marks;		/* --marks: "#@ in/out T<tid> <global step>" around every library call (sweep windows of the check) */
+static void lib_enter(void)
+{
+	if (sweep_marks) vrt_raw("#@ in T%d %lu", vrt_self(), vrt_steps());
+	if (soloing) { solo_s0 = vrt_mysteps(); solo_r0 = vrt_myrelax(); }
+}
 static void lib_leave(void)
 {
+	if (sweep_marks) vrt_raw("#@ out T%d %lu", vrt_self(), vrt_steps());
 	if (soloing) { solo_steps += vrt_mysteps() - solo_s0; solo_relax += vrt_myrelax() - solo_r0; }
 }
 
@@ -379,7 +410,9 @@ static struct knode *op_lookup(unsigned long k)
 	if (r)
 		check_found("lookup", k, r, call);
 	else if (key_sure_since(k, call))
-		vrt_fail("resident", "lookup(key %lu) found nothing although the key was continuously present during the call", k);
+		vrt_fail(repl_inflight[k] || repl_last[k] > call ? "replabsent" : "resident",
+			 "lookup(key %lu) found nothing although the key was continuously present during the call%s", k,
+			 repl_inflight[k] || repl_last[k] > call ? " (a replacement of that key was in progress)" : "");
 	h_end(h, r ? r->id : -1);
 	return r;
 }
@@ -424,12 +457,15 @@ static void op_add_replace(unsigned long k)
 	long call = htime++;
 	int h = h_begin(H_ADDR, k, n->id, -1);
 	ar_inflight[k]++;
+	repl_inflight[k]++;
 	vrt_log("CALL add_replace node%d %lu %lu", n->id, n->hash, k);
 	lib_enter();
 	r = knode_of(cds_lfht_add_replace(ht, n->hash, match_key, &k, &n->node));
 	lib_leave();
 	vrt_log("RET add_replace %s", NM(r));
 	ar_inflight[k]--;
+	repl_inflight[k]--;
+	repl_last[k] = htime++;
 	ar_last[k] = htime++;
 	if (!r && key_sure_since(k, call))
 		vrt_fail("dupkey", "add_replace(key %lu) inserted node%d without replacing although the key was continuously present", k, n->id);
@@ -449,11 +485,14 @@ static void op_replace(unsigned long k)
 	struct knode *old = knode_of(it.node), *n = new_node(k);
 	int h = h_begin(H_REPL, k, n->id, old->id), ret;
 	if (!touched_at[old->id]) touched_at[old->id] = htime++;
+	repl_inflight[k]++;
 	vrt_log("CALL replace node%d %lu %lu", n->id, n->hash, k);
 	lib_enter();
 	ret = cds_lfht_replace(ht, &it, n->hash, match_key, &k, &n->node);
 	lib_leave();
 	vrt_log("RET replace %d", ret);
+	repl_inflight[k]--;
+	repl_last[k] = htime++;
 	if (ret == 0) {
 		node_in(n);
 		node_won(old, "replace");
@@ -465,6 +504,47 @@ static void op_replace(unsigned long k)
 			vrt_fail("owner", "replace of node%d returned %d", old->id, ret);
 	}
 	h_end(h, ret);
+}
+
+/* error paths of the API glue: replace with a non-matching key / hash (-EINVAL, no shared access), replace and del of a
+ * NULL node (-ENOENT) */
+static void op_replace_mismatch(unsigned long k)
+{
+	struct knode *old = knode_of(it.node), *n;
+	int ret;
+	if (k == old->key) k = (k + 1) % MAXKEY;
+	n = new_node(k);
+	vrt_log("CALL replace node%d %lu %lu", n->id, n->hash, k);
+	lib_enter();
+	ret = cds_lfht_replace(ht, &it, n->hash, match_key, &k, &n->node);
+	lib_leave();
+	vrt_log("RET replace %d", ret);
+	n->state = 0;
+	if (ret != -EINVAL)
+		vrt_fail("owner", "replace of node%d (key %lu) by a node of key %lu returned %d, expected -EINVAL", old->id, old->key, k, ret);
+}
+static void op_null(int del)
+{
+	int ret;
+	it.node = it.next = NULL;
+	if (del) {
+		vrt_log("CALL del");
+		lib_enter();
+		ret = cds_lfht_del(ht, NULL);
+		lib_leave();
+		vrt_log("RET del %d", ret);
+	} else {
+		unsigned long k = 0;
+		struct knode *n = new_node(k);
+		vrt_log("CALL replace node%d %lu %lu", n->id, n->hash, k);
+		lib_enter();
+		ret = cds_lfht_replace(ht, &it, n->hash, match_key, &k, &n->node);
+		lib_leave();
+		vrt_log("RET replace %d", ret);
+		n->state = 0;
+	}
+	if (ret != -ENOENT)
+		vrt_fail("owner", "%s of a NULL node returned %d, expected -ENOENT", del ? "del" : "replace", ret);
 }
 
 static void op_del(void)
@@ -552,6 +632,24 @@ static void op_traverse(void)
 	}
 }
 
+/* single iterator steps for the directed scripts: the iterator (node, next) stays valid inside the section */
+static void op_first(void)
+{
+	vrt_log("CALL first");
+	lib_enter();
+	cds_lfht_first(ht, &it);
+	lib_leave();
+	vrt_log("RET first %s %s", NM(it.node), NM(it.next));
+}
+static void op_next(void)
+{
+	vrt_log("CALL next");
+	lib_enter();
+	cds_lfht_next(ht, &it);
+	lib_leave();
+	vrt_log("RET next %s %s", NM(it.node), NM(it.next));
+}
+
 /* ---- C17 freeze helpers -------------------------------------------------------------------------------------- */
 static void freeze_others(int on)
 {
@@ -617,7 +715,13 @@ static void one_op(int idx, int solo)
 		what = "del";
 		r = op_lookup(k);
 		if (r) op_del();
-	} else if (c < 80) { what = "lookup"; reader = 1; op_lookup(k); }
+		else if (vrt_rand() % 8 == 0) op_null(1);
+	} else if (c < 80) {
+		what = "lookup"; reader = 1;
+		r = op_lookup(k);
+		if (r && !small_hist && vrt_rand() % 6 == 0) { reader = 0; op_replace_mismatch((k + 1) % nkeys); }
+		else if (!r && !small_hist && vrt_rand() % 6 == 0) { reader = 0; op_null(0); }
+	}
 	else if (c < 90) { what = "dupwalk"; reader = 1; calls = 16; op_dupwalk(k); }
 	else { what = "traverse"; reader = 1; calls = npool + 2; op_traverse(); }
 	wflavor.read_unlock();
@@ -630,7 +734,9 @@ static void one_op(int idx, int solo)
  * Operations (',' separated, each in its own read-side section; '+' chains primitives inside ONE section):
  *   a<k> add   u<k> add_unique   p<k> add_replace   L<k>|l<k> lookup   R<k> replace the iterator's node by a new node of key k
  *   D del the iterator's node   r<k> = L<k>+R<k>   d<k> = L<k>+D   w<k> lookup+next_duplicate walk   t first/next traversal
- *   z logical sleep (lets the other threads run; inside a section it keeps the section open)
+ *   F first   n next (one iterator step each; with z in between the thread holds the iterator while others run)
+ *   X<k> replace the iterator's node by a node of ANOTHER key (-EINVAL)   N replace / E del of a NULL node (-ENOENT)
+ *   z logical sleep (lets the other threads run; inside a section it keeps the section open)   Z (alone) the same outside a section
  *   g (alone) synchronize_rcu + free the nodes this thread owns
  */
 static char *scripts[MAXT + 2];
@@ -650,6 +756,11 @@ static void prim(const char *p)
 	case 'd': if (op_lookup(k)) op_del(); break;
 	case 'w': op_dupwalk(k); break;
 	case 't': op_traverse(); break;
+	case 'F': op_first(); break;
+	case 'n': if (it.node) op_next(); break;
+	case 'X': if (it.node) op_replace_mismatch(k); break;
+	case 'N': op_null(0); break;
+	case 'E': op_null(1); break;
 	case 'z': vrt_sleep(100000); break;
 	default: fprintf(stderr, "harness: bad script primitive '%s'\n", p); _exit(9);
 	}
@@ -661,6 +772,7 @@ static void run_script(const char *sc)
 	for (op = strtok_r(buf, ",", &sv1); op; op = strtok_r(NULL, ",", &sv1)) {
 		char *pr, *sv2;
 		if (op[0] == 'g') { reclaim_mine(); continue; }
+		if (op[0] == 'Z') { vrt_sleep(100000); continue; }	/* outside any section */
 		wflavor.read_lock();
 		it.node = it.next = NULL;
 		for (pr = strtok_r(op, "+", &sv2); pr; pr = strtok_r(NULL, "+", &sv2))
@@ -703,10 +815,12 @@ static void *resizer(void *arg)
 			target = strtoul(rtargets, &e, 10);
 			rtargets = *e ? e + 1 : e;
 			if (!target) break;
-		}
-		vrt_sleep(vrt_rand() % 80);
+		} else		/* directed runs: the schedule alone decides when the resize happens */
+			vrt_sleep(vrt_rand() % 80);
 		vrt_log("CALL resize %lu", target);
+		lib_enter();
 		cds_lfht_resize(ht, target);
+		lib_leave();
 		vrt_log("RET resize");
 	}
 	wflavor.unregister_thread();
@@ -714,8 +828,11 @@ static void *resizer(void *arg)
 }
 
 /* ---- Wing–Gong linearizability search against a reference multimap (small histories) ----------------------------- */
-static unsigned char wg_memo[1 << 16];	/* visited (done-mask) with the present-set folded in by hashing */
-static unsigned long wg_seen[1 << 16];
+#define WG_SLOTS (1u << 20)
+static unsigned char wg_memo[WG_SLOTS];	/* visited (done-mask, present-set): exact key, hashed slot */
+static unsigned long wg_seen[WG_SLOTS];
+static unsigned long wg_calls;		/* search budget: an exhausted search is "not checked", never a failure */
+#define WG_BUDGET 4000000UL
 static int key_present(unsigned long present, unsigned long k, int *which)
 {
 	int i;
@@ -726,8 +843,9 @@ static int key_present(unsigned long present, unsigned long k, int *which)
 static int wg(unsigned done, unsigned long present)
 {
 	int i, j;
-	unsigned slot = (done * 2654435761u ^ (unsigned)(present * 0x9E3779B97F4A7C15UL >> 40)) & 0xffff;
+	unsigned slot = (done * 2654435761u ^ (unsigned)(present * 0x9E3779B97F4A7C15UL >> 40)) & (WG_SLOTS - 1);
 	if (done == (1u << nhist) - 1) return 1;
+	if (++wg_calls > WG_BUDGET) return 1;
 	if (wg_memo[slot] && wg_seen[slot] == (present ^ ((unsigned long)done << 40))) return 0;
 	for (i = 0; i < nhist; i++) {
 		struct hop *o = &hist[i];
@@ -769,7 +887,7 @@ static int wg(unsigned done, unsigned long present)
 static void lin_check(void)
 {
 	int i;
-	if (!small_hist || nhist == 0 || nhist > 16 || npool > 40) return;
+	if (!small_hist || nhist == 0 || nhist > 24 || npool > 40) return;
 	for (i = 0; i < nhist; i++) if (!hist[i].retn) return;
 	if (!wg(0, 0)) {
 		vrt_fail("lin", "history of %d operations has no linearization against the multimap specification", nhist);
@@ -777,6 +895,7 @@ static void lin_check(void)
 			fprintf(stderr, "  op%d T%d type=%d key=%lu node=%d arg2=%d ret=%d [%ld,%ld]\n", i, hist[i].tid, hist[i].type,
 				hist[i].key, hist[i].node, hist[i].arg2, hist[i].ret, hist[i].call, hist[i].retn);
 	}
+	if (wg_calls > WG_BUDGET) { vrt_raw("# LIN-INCONCLUSIVE ops=%d", nhist); return; }
 	vrt_raw("# LIN ops=%d ok=%d", nhist, !vrt_failed);
 }
 
@@ -850,20 +969,22 @@ int main(int argc, char **argv)
 		else if (!strcmp(argv[i], "--pre") && i + 1 < argc) pre_script = argv[++i];
 		else if (!strcmp(argv[i], "--rtargets") && i + 1 < argc) { rtargets = argv[++i]; nresize = 64; }
 		else if (!strcmp(argv[i], "--small")) small_hist = 1;
+		else if (!strcmp(argv[i], "--marks")) sweep_marks = 1;
 		else if (!strcmp(argv[i], "--solo")) solo_mode = 1;
 		else if (!strcmp(argv[i], "--big")) big = 1;
 	}
 	if (nthreads > MAXT) nthreads = MAXT;
 	if (nkeys > MAXKEY) nkeys = MAXKEY;
-	if (big) mm_kind = 0;
+	if (big) { mm_kind = 0; min_alloc = 1; }
 	signal(SIGSEGV, on_segv);
 	signal(SIGBUS, on_segv);
+	signal(SIGABRT, on_abort);
 	vrt_unknown_hook = unknown_hook;
 	pool = calloc(MAXNODE, sizeof(*pool));
 	init_wrap_mm();
 	init_flavor();
-	vrt_raw("CFG init=%d min=%d max=%d flags=%d mm=%s threads=%d keys=%d hashmode=%d small=%d solo=%d model=%d", init_size,
-		min_alloc, max_size, ht_flags, mm_names[mm_kind], nthreads, nkeys, hashmode, small_hist, solo_mode, !big);
+	vrt_raw("CFG init=%d min=%d max=%d flags=%d mm=%s threads=%d keys=%d hashmode=%d small=%d solo=%d model=1 big=%d", init_size,
+		min_alloc, max_size, ht_flags, mm_names[mm_kind], nthreads, nkeys, hashmode, small_hist, solo_mode, big);
 	wflavor.register_thread();
 	ht = _cds_lfht_new_with_alloc(init_size, min_alloc, max_size, ht_flags, &wrap_mm, &wflavor, &rec_alloc, NULL);
 	if (!ht) { fprintf(stderr, "harness: cds_lfht_new failed\n"); return 9; }
@@ -876,6 +997,7 @@ int main(int argc, char **argv)
 	vrt_name(&ht->resize_mutex, sizeof(ht->resize_mutex), "ht.rmutex");
 	if (ht->split_count)
 		vrt_name(ht->split_count, (split_count_mask + 1) * sizeof(struct ht_items_count), "split");
+	vrt_raw("CFG cpus=%ld", nr_cpus_mask + 1);	/* partition_resize_helper: min(cpus, len >> MIN_PARTITION_PER_THREAD_ORDER) threads */
 	vrt_log("NEW %lu", ht->size);
 	if (pre_script) { prefill = 0; run_script(pre_script); }
 	for (i = 0; i < prefill; i++) {
@@ -892,6 +1014,7 @@ int main(int argc, char **argv)
 	for (i = 0; i < nt; i++)
 		vrt_join(tids[i]);
 	vrt_raw("#@ joined %lu", vrt_steps());
+	hist_closed = 1;
 	final_checks();
 	vrt_log("CALL destroy");
 	ret = cds_lfht_destroy(ht, NULL);
